@@ -15,7 +15,7 @@ use crate::spec::DefSpec;
 pub const ALPHABET: &[&[u8]] = &[
     b"a", b"b", b"c", b"x", b"0", b"1", b"-", b"_", b".", b"*", b" ", b"\n", "é".as_bytes(), "ß".as_bytes(), "λ".as_bytes(), "σ".as_bytes(),
     "ς".as_bytes(), "Σ".as_bytes(), "\u{212A}".as_bytes(), "ſ".as_bytes(), "日".as_bytes(), "😀".as_bytes(), b"A", b"k", b"s", b"z", b"9", b"e",
-    "\u{a0}".as_bytes(), "\u{2003}".as_bytes(), "٣".as_bytes(), b"[", b"]", b"(",
+    "\u{a0}".as_bytes(), "\u{2003}".as_bytes(), "٣".as_bytes(), b"[", b"]", b"(", "\u{feff}".as_bytes(),
 ];
 pub const BYTE_NOISE: &[&[u8]] = &[b"\x00", b"\x7f", b"\x80", b"\xC3", b"\xA9", b"\xFF", b"\xE6", b"\xF0\x9F"];
 
@@ -78,6 +78,13 @@ pub fn fixed_inputs(p: &Prepared, def: &DefSpec, caps: (usize, usize), n_random:
         run.count("cover_dropped_invalid_utf8", cs.dropped_invalid_utf8 as u64);
     }
     inputs.push(Vec::new());
+    // a byte order mark at the very start of the input is text like any other
+    inputs.push("\u{feff}".as_bytes().to_vec());
+    if let Some(first) = inputs.iter().find(|i| !i.is_empty() && i.len() < 12).cloned() {
+        let mut v = "\u{feff}".as_bytes().to_vec();
+        v.extend(first);
+        inputs.push(v);
+    }
     let mut runner = TestRunner::new(Config { rng_seed: RngSeed::Fixed(seed), failure_persistence: None, ..Config::default() });
     let strat = rand_input_strategy(40);
     for _ in 0..n_random {
